@@ -105,12 +105,14 @@ def body(run):
                         bp = next(b for b in bps if b.src_out_block.row_off <= r < b.src_out_block.row_off + b.src_out_block.height
                                   and b.src_out_block.col_off <= c < b.src_out_block.col_off + b.src_out_block.width)
                         src_ra, ref_ra = rd.read(bp)
+                        from rasterio.enums import Resampling
+
+                        def kernel_for(from_res, to_res):      # the rule of KernelModel._get_resampling
+                            return Resampling['average' if np.prod(np.abs(from_res)) <= np.prod(np.abs(to_res)) else ups]
                         if res['proc_crs'] == 'ref':
-                            from rasterio.enums import Resampling
-                            src_ra = src_ra.reproject(**ref_ra.proj_profile, resampling=Resampling.average)
+                            src_ra = src_ra.reproject(**ref_ra.proj_profile, resampling=kernel_for(src_ra.res, ref_ra.res))
                         else:
-                            from rasterio.enums import Resampling
-                            ref_ra = ref_ra.reproject(**src_ra.proj_profile, resampling=Resampling[ups if g.ratio >= 1 else 'average'])
+                            ref_ra = ref_ra.reproject(**src_ra.proj_profile, resampling=kernel_for(ref_ra.res, src_ra.res))
                         jm = src_ra.mask & ref_ra.mask
                         if len(set(np.asarray(src_ra.array)[jm].tolist())) >= 2:
                             blk_degenerate = False
